@@ -83,7 +83,7 @@ var putTransports = []string{"rec-nocl", "srv-cl", "srv-chunked", "rec-cl"}
 
 // attempt presents one offer through the session's path (receive, direct or put) and judges it.
 func (s *session) attempt(of *offer, transport string) {
-	if s.dead || s.nviol > 12 {
+	if s.dead || s.nviol > 400 {
 		return
 	}
 	if of.Reader == "" {
@@ -196,7 +196,7 @@ var batchTransports = []string{"rec-nocl", "srv-cl", "srv-chunked"}
 // batch sends parts in one multipart request and judges every part.
 // primary is the index of the part whose reader kind / read error shapes the request body.
 func (s *session) batch(parts []*offer, primary int, transport string) {
-	if s.dead || s.nviol > 12 {
+	if s.dead || s.nviol > 400 {
 		return
 	}
 	if transport == "" {
